@@ -70,7 +70,11 @@ Definition model_ok (c : c03case) : bool :=
   | CExtents _ _ => true
   | CHeads segs heads =>
     let '(m, img) := run_segs (fst start_state) (snd start_state) segs in
+    (* repaired: both sides answer the DAG function; as the code stood: cached map vs leaves *)
     forallb (fun h : N * option N * option N => let '(br, b, a) := h in
+               optN_eqb (branch_head m 1 br) b &&
+               match recover conf img with Ok (mr, _) => optN_eqb (branch_head mr 1 br) a | _ => false end) heads
+    || forallb (fun h : N * option N * option N => let '(br, b, a) := h in
                optN_eqb (live_head m 1 br) b &&
                match recover conf img with Ok (mr, _) => optN_eqb (live_head mr 1 br) a | _ => false end) heads
   | CMapLog segs before after =>
@@ -82,24 +86,20 @@ Definition model_ok (c : c03case) : bool :=
   | CNext _ _ => true
   end.
 
-(* 0 holds; 1 an endpoint answers differently after the restart; 2 repo metadata differs;
-   3 split records differ; 4 GET nextlabel of a labelmap that never stored a label jumps to the
-   10-billion default (known finding C03-nextlabel-default); 5 a branch name resolves to a different
-   node, or stops resolving (known finding C03-branch-heads-from-leaves); 7 the block-index extents of
-   a labelmap vanish from its instance info (known finding C03-extents-index) *)
+(* 0 holds; 1 an endpoint (incl. branch-name resolution, next label, instance info) answers
+   differently after the restart; 2 repo metadata differs; 3 split records differ *)
 Definition spec_class (c : c03case) : nat :=
   match c with
   | CGen kinds => if forallb (fun k : nat * nat => Nat.eqb (snd k) 0) kinds then 0%nat else 1%nat
-  | CGenMerge kinds => if forallb (fun k : nat * nat => Nat.eqb (snd k) 0) kinds then 0%nat else 5%nat
+  | CGenMerge kinds => if forallb (fun k : nat * nat => Nat.eqb (snd k) 0) kinds then 0%nat else 1%nat
   | CRepos _ before after json_same => if repos_eqb before after && json_same then 0%nat else 2%nat
   | CHeads _ heads =>
     if forallb (fun h : N * option N * option N => let '(_, b, a) := h in optN_eqb b a) heads then 0%nat
-    else 5%nat
-  | CExtents before after => if Bool.eqb before after then 0%nat else 7%nat
+    else 1%nat
+  | CExtents before after => if Bool.eqb before after then 0%nat else 1%nat
   | CMapLog _ before after => if list_eqb quad_eqb before after then 0%nat else 3%nat
   | CNext before after =>
-    if before =? after then 0%nat
-    else if (before =? 1) && (after =? 10000000001) then 4%nat else 1%nat
+    if before =? after then 0%nat else 1%nat
   end.
 
 Fixpoint classify_from (i : nat) (l : list c03case) : list (nat * nat) :=
